@@ -170,11 +170,29 @@ class Compiler:
         raises = model.spec(method)
         tmp = f"{ctx.frame}.$t{next(self.tmp)}"
         n = Node("call", obj=oname, method=method, args=list(args), kwargs=dict(kwargs), target=tmp)
-        n.next = k(("v", tmp))
+        rt = model.result_type(method)
+        n.next = k(self.result_rexpr(rt, tmp))
         n.exc = {}
         for e in raises:
             n.exc[e] = self.raise_to(e, ctx)
         return n
+
+    def deref(self, r, ctx, k, exc):
+        """r = ('rec', 'Ref:<obj>', {'?': present}): continue with the object, or raise `exc` when None."""
+        target = ("o", r[1][4:])
+        pres = r[2].get("?", ("c", True))
+        if pres == ("c", True):
+            return k(target)
+        return Node("branch", test=pres, t=k(target), f=self.raise_to(exc, ctx))
+
+    def result_rexpr(self, rt, tmp):
+        if isinstance(rt, tuple) and rt[0] == "rec":
+            return ("rec", rt[1], {f: ("v", f"{tmp}#{f}") for f in rt[2]})
+        if isinstance(rt, tuple) and rt[0] == "tuple":
+            return ("tuple", [self.result_rexpr(x, f"{tmp}.{i}") for i, x in enumerate(rt[1])])
+        if rt is None:
+            return ("c", None)
+        return ("v", tmp)
 
     def inline(self, fdef, args, kwargs, ctx, k, qual):
         frame = f"f{next(self.frames)}"
@@ -191,8 +209,19 @@ class Compiler:
                 v = self.pure(defaults[i], Ctx(self, frame, {}, None, [], [], []))
             else:
                 raise Unsupported(f"missing argument {p} for {qual}")
-            if v[0] in ("o", "c") or (v[0] == "v" and v[1] in self.immutable):
+            if v[0] in ("o", "c", "meth", "bound", "recmeth") or (v[0] == "v" and v[1] in self.immutable):
                 env[p] = v
+            elif v[0] == "rec":
+                fields = {}
+                for f, fv in v[2].items():
+                    if fv[0] == "c" or (fv[0] == "v" and fv[1] in self.immutable):
+                        fields[f] = fv
+                    else:
+                        fields[f] = ("v", f"{frame}.{p}#{f}")
+                        pre.append((f"{frame}.{p}#{f}", fv))
+                env[p] = ("rec", v[1], fields)
+            elif v[0] in ("tuple", "list"):
+                env[p] = v  # compile-time structure of pure expressions (evaluated where used)
             else:
                 env[p] = ("v", f"{frame}.{p}")
                 pre.append((f"{frame}.{p}", v))
@@ -271,10 +300,14 @@ class Compiler:
             if r[0] == "o" and t.id not in ctx.env:
                 ctx.env[t.id] = r  # static alias of a model object
                 return k()
-            if r[0] == "c" and r[1] is None and t.id in ctx.env and ctx.env[t.id][0] == "rec" \
-                    and "?" in ctx.env[t.id][2]:
-                # `x = None` for an optional record: clear the presence flag
-                return Node("assign", target=ctx.env[t.id][2]["?"][1], value=("c", False), next=k())
+            if r[0] == "c" and r[1] is None:
+                # `x = None`: clear the presence flag of the (possibly later) optional record stored in x
+                cur = ctx.env.get(t.id)
+                if cur is not None and cur[0] == "rec" and "?" in cur[2] and cur[2]["?"][0] == "v":
+                    return Node("assign", target=cur[2]["?"][1], value=("c", False), next=k())
+                if cur is None or cur[0] != "rec":
+                    ctx.env[t.id] = ("c", None)
+                return Node("assign", target=f"{ctx.local(t.id)}#?", value=("c", False), next=k())
             if r[0] == "rec":
                 base = ctx.local(t.id)
                 fields = {f: ("v", f"{base}#{f}") for f in r[2]}
@@ -284,6 +317,9 @@ class Compiler:
                     if r[2][f] != fields[f]:
                         node = Node("assign", target=fields[f][1], value=r[2][f], next=node)
                 return node
+            if r[0] in ("meth", "bound"):
+                ctx.env[t.id] = r
+                return k()
             if r[0] in ("c",) and isinstance(r[1], str):
                 ctx.env[t.id] = r  # opaque text / tags stay compile-time constants
                 return k()
@@ -303,9 +339,17 @@ class Compiler:
             return chain(0)
         if isinstance(t, ast.Attribute):
             def after(o):
+                if o[0] == "rec":
+                    if (o[1], "set:" + t.attr) in self.rec_methods:
+                        obj, meth, lead = self.rec_methods[(o[1], "set:" + t.attr)]
+                        return self.prim_call(obj, meth, list(lead(o[2])) + [r], {}, ctx, lambda _: k())
+                    return k()  # attributes of value records (exception causes, bookkeeping) are not modelled
                 if o[0] != "o":
                     raise Unsupported("attribute store on dynamic object")
-                return self.prim_call(o[1], "__setattr__", [("c", t.attr), r], {}, ctx, lambda _: k())
+                a = self.objects[o[1]].get("attrs", {}).get(t.attr)
+                if not (isinstance(a, tuple) and a[0] == "field"):
+                    raise Unsupported(f"store to unmodelled attribute {o[1]}.{t.attr}")
+                return self.prim_call(a[1] if len(a) > 1 else o[1], f"set:{t.attr}", [r], {}, ctx, lambda _: k())
             return self.expr(t.value, ctx, after)
         raise Unsupported(f"store to {ast.dump(t)}")
 
@@ -526,6 +570,9 @@ class Compiler:
         item = s.items[0]
 
         def after_cm(cm):
+            if cm[0] == "rec" and cm[1].startswith("Ref:"):
+                # `with None:` raises TypeError (no context manager protocol)
+                return self.deref(cm, ctx, after_cm, "TypeError")
             if cm[0] != "o":
                 raise Unsupported("with on dynamic object")
             oref = ObjRef(cm[1])
@@ -655,8 +702,8 @@ class Compiler:
                     if isinstance(a, ObjRef):
                         return k(("o", a.name))
                     if isinstance(a, tuple) and a[0] == "field":
-                        # mutable field of a model object: read through the model (visible op)
-                        return self.prim_call(o[1], "__getattr__", [("c", e.attr)], {}, ctx, k)
+                        # mutable field of a model object: read through the model
+                        return self.prim_call(a[1] if len(a) > 1 else o[1], f"get:{e.attr}", [], {}, ctx, k)
                     if isinstance(a, tuple) and a[0] == "bound":
                         return k(("bound", a[1], a[2]))
                     return k(("c", a))
@@ -664,6 +711,20 @@ class Compiler:
                 return k(("meth", o[1], e.attr))
             if o[0] == "c" and isinstance(o[1], tuple) and o[1][0] == "exc":
                 return k(("c", None))  # attributes of a caught exception object (only formatted)
+            if o[0] == "rec" and o[1].startswith("Ref:"):
+                inner = ast.copy_location(ast.Attribute(value=ast.Name(id="$deref", ctx=ast.Load()), attr=e.attr, ctx=ast.Load()), e)
+
+                def cont(oo):
+                    saved = ctx.env.get("$deref")
+                    ctx.env["$deref"] = oo
+                    try:
+                        return self.e_Attribute(inner, ctx, k)
+                    finally:
+                        if saved is None:
+                            ctx.env.pop("$deref", None)
+                        else:
+                            ctx.env["$deref"] = saved
+                return self.deref(o, ctx, cont, "AttributeError")
             if o[0] == "rec":
                 fn = self.rec_attrs.get((o[1], e.attr))
                 if fn is None:
@@ -764,6 +825,9 @@ class Compiler:
                 def after(o):
                     if o[0] == "o":
                         return self.call_method(ObjRef(o[1]), e.func.attr, args, kwargs, ctx, k)
+                    if o[0] == "rec" and o[1].startswith("Ref:"):
+                        return self.deref(o, ctx, lambda oo: self.call_method(ObjRef(oo[1]), e.func.attr, args, kwargs, ctx, k),
+                                          "AttributeError")
                     if o[0] == "rec":
                         rm = self.rec_methods.get((o[1], e.func.attr))
                         if rm is None:
@@ -805,7 +869,7 @@ class Compiler:
             return self.call_method(ObjRef(rm[0]), rm[1], list(rm[2](r[2])) + list(args), kwargs, ctx, k)
         if name in self.ctors and name not in ctx.env:
             return k(self.ctors[name](args, kwargs))
-        if name in ctx.env and ctx.env[name][0] == "bound":
+        if name in ctx.env and ctx.env[name][0] in ("bound", "meth"):
             _, o, m = ctx.env[name]
             return self.call_method(ObjRef(o), m, args, kwargs, ctx, k)
         if name in self.ct.funcs and g is None:
